@@ -65,6 +65,12 @@ class State:
         s.trace = list(self.trace)
         if hasattr(self, "pending"):
             s.pending = dict(self.pending)
+        if hasattr(self, "nullptr"):
+            s.nullptr = set(self.nullptr)
+        if hasattr(self, "nonempty"):
+            s.nonempty = set(self.nonempty)
+        if hasattr(self, "nullcase"):
+            s.nullcase = dict(self.nullcase)
         if hasattr(self, "nothing_written"):
             s.nothing_written = dict(self.nothing_written)
         if hasattr(self, "prechecked"):
@@ -74,7 +80,7 @@ class State:
 
 class Analysis:
     def __init__(self, prog, fn, caps, contracts, assume=None, max_paths=4000, loads=True, elem_scalars=False,
-                 ghost=None, nowrap=False):
+                 ghost=None, nowrap=False, ptr_assume=None, exit_obligations=None):
         """caps: {buffer key: capacity (parameter/field path, or int)} for pointer parameters and fields;
         local arrays are discovered.  contracts: callee -> dict (see spec/bounds_contracts.json).
         assume: list of (path, op, value) preconditions, e.g. ('fifo->size', '>=', 1)."""
@@ -82,6 +88,8 @@ class Analysis:
         self.caps = dict(caps)
         self.contracts = contracts
         self.assume = assume or []
+        self.ptr_assume = ptr_assume or {}
+        self.exit_obligations = exit_obligations or []
         self.elem_scalars = elem_scalars
         self.symbolic_bases = elem_scalars
         self.ghost = ghost or {}
@@ -215,6 +223,8 @@ class Analysis:
             return self.var(st, s)
         if s.k == "ArraySubscriptExpr" and s.get("tk") in INT_TK and s.get("path") and self.elem_scalars:
             # element of a local array addressed by an unmodified index: tracked like a scalar
+            return self.var(st, s)
+        if s.k == "UnaryOperator" and s.get("op") == "*" and s.get("tk") in INT_TK and s.get("path"):
             return self.var(st, s)
         if s.k == "UnaryExprOrTypeTraitExpr" and "cv" in s:
             return Lin.const(s["cv"])
@@ -412,6 +422,23 @@ class Analysis:
         if k in ("BinaryOperator", "CompoundAssignOperator") and n.get("op") in C.ASSIGN_OPS:
             t = n.child(0).strip()
             op = n["op"]
+            # out-parameter scalars and pointers (*len1 = ..., *s2 = ...)
+            if t.k == "UnaryOperator" and t.get("op") == "*" and t.get("path") and self.pointer(st, t.child(0)) is None:
+                if t.get("tk") in INT_TK:
+                    self.scalar_store(st, n, t, op)
+                    return
+                if t.get("tk") == "ptr" and op == "=":
+                    if C.is_null(n.child(1)):
+                        st.ptr.pop(t["path"], None)
+                        st.nullptr = set(getattr(st, "nullptr", set())) | {t["path"]}
+                    else:
+                        pv = self.pointer(st, n.child(1))
+                        st.nullptr = set(getattr(st, "nullptr", set())) - {t["path"]}
+                        if pv is not None:
+                            st.ptr[t["path"]] = pv
+                        else:
+                            st.ptr.pop(t["path"], None)
+                    return
             # memory store through pointer / array
             if t.k == "ArraySubscriptExpr" or (t.k == "UnaryOperator" and t.get("op") == "*"):
                 if t.k == "ArraySubscriptExpr":
@@ -505,7 +532,8 @@ class Analysis:
                 del st.ptr[key]
 
     def oblige_fact(self, st, node, kind, goal, text):
-        site = self.sites.setdefault(node.id, Site(node, kind, text))
+        key = node.id if kind != "exit" else (node.id, text)
+        site = self.sites.setdefault(key, Site(node, kind, text))
         if entails(st.cons, goal):
             site.results.append((True, st.complete, False, text, None, None))
             return
@@ -700,6 +728,37 @@ class Analysis:
             nn = aval(1)
             if nn is not None:
                 st.cons.append(le(ret, nn))
+                sp = args[0].strip_all_casts().get("path")
+                if sp in getattr(st, "nonempty", set()) and entails(st.cons, le(Lin.const(1), nn)):
+                    st.cons.append(le(Lin.const(1), ret))
+        elif kind == "get_parts":                 # scpiheap_get_parts(heap, s, &l1, &s2, &l2)
+            sp = aptr(1)
+            cap = self.cap_of(st, "heap->data")
+            l1 = self.new_sym(st, "len1", nonneg=True)
+            l2 = self.new_sym(st, "len2", nonneg=True)
+
+            def outpath(i):
+                p_ = args[i].strip_all_casts().get("path") or ""
+                if p_.startswith("&"):
+                    return p_[1:]
+                if p_.startswith("(") or not p_:
+                    # (const char **)&data_add
+                    for x in args[i].walk():
+                        if x.get("path", "").startswith("&"):
+                            return x["path"][1:]
+                return "*" + p_
+            p1, p2, p3 = outpath(2), outpath(3), outpath(4)
+            st.env[p1] = l1
+            st.env[p3] = l2
+            if sp is not None and cap is not None:
+                st.cons.append(le(sp[1] + l1, cap))                   # (A) first part ends inside the heap
+                st.cons.append(le(l2, cap - Lin.const(1)))            # (C') the wrapped part is NUL-terminated inside the heap
+                st.cons.append(le(Lin.const(1), l1))                  # a stored text is not empty
+                st.ptr[p2] = ("heap->data", Lin.const(0))
+                st.nullcase = dict(getattr(st, "nullcase", {}))
+                eqs = [le(sp[1] + l1, cap), le(cap, sp[1] + l1)]      # (B1) wrapped: first part ends exactly at the end
+                st.nullcase[p2] = (eqs, [lt(sp[1] + l1, cap), l2, l2.scale(-1)])   # (B2) not wrapped: NUL inside, len2 = 0
+            ret = self.new_sym(st, "get_parts", nonneg=True)
         elif kind == "pure":
             pass
         if ret is None and n.get("tk") in INT_TK:
@@ -780,12 +839,48 @@ class Analysis:
     # ---- branch facts ----------------------------------------------------------------------
     def assume_atom(self, st, atom, pol):
         a = atom.strip_all_casts()
+        # first character of a string: *p == 0 is false / *p is true  =>  the string is not empty
+        tgt, pl = None, None
+        if a.k == "BinaryOperator" and a.get("op") in ("==", "!=") and C.const_of(a.child(1)) == 0:
+            d0 = a.child(0).strip_all_casts()
+            if d0.k == "UnaryOperator" and d0.get("op") == "*" and d0.get("ct") in ("char", "const char"):
+                tgt, pl = d0.child(0).strip_all_casts().get("path"), (pol if a["op"] == "!=" else not pol)
+        if a.k == "UnaryOperator" and a.get("op") == "*" and a.get("ct") in ("char", "const char"):
+            tgt, pl = a.child(0).strip_all_casts().get("path"), pol
+        if tgt is not None:
+            if pl:
+                st.nonempty = set(getattr(st, "nonempty", set())) | {tgt}
+            return
+        # a test of a character read from memory against a constant says nothing linear about the
+        # integer variables (memory contents are an unconstrained input of the function)
+        def char_read(x):
+            x = x.strip_all_casts()
+            return x.k in ("ArraySubscriptExpr",) and (x.get("ct") or "").replace("const ", "") in ("char", "unsigned char", "signed char")
+        if a.k == "BinaryOperator" and a.get("op") in ("==", "!=", "<", ">", "<=", ">=") and \
+                ((char_read(a.child(0)) and C.const_of(a.child(1)) is not None) or
+                 (char_read(a.child(1)) and C.const_of(a.child(0)) is not None)):
+            return
+        if char_read(a):
+            return
+        # nullness of a pointer that a contract tied to arithmetic facts
+        if a.get("tk") == "ptr" and a.get("path") in getattr(st, "nullcase", {}):
+            nn, nu = st.nullcase[a["path"]]
+            st.cons += (nn if pol else nu)
+            return
         if a.k == "BinaryOperator" and a.get("op") in ("<", "<=", ">", ">=", "==", "!="):
             l, r = self.value(st, a.child(0)), self.value(st, a.child(1))
             if l is None or r is None:
                 lt_, rt_ = a.child(0).strip_all_casts(), a.child(1).strip_all_casts()
                 if lt_.get("tk") in ("ptr",) or rt_.get("tk") in ("ptr",):
-                    return   # pointer comparisons carry no arithmetic fact
+                    pa, pb = self.pointer(st, a.child(0)), self.pointer(st, a.child(1))
+                    if pa is not None and pb is not None and pa[0] == pb[0]:
+                        l, r = pa[1], pb[1]      # same object: compare the offsets
+                    else:
+                        return   # unrelated pointers carry no arithmetic fact
+            if l is None or r is None:
+                lt_, rt_ = a.child(0).strip_all_casts(), a.child(1).strip_all_casts()
+                if lt_.get("tk") in ("ptr",) or rt_.get("tk") in ("ptr",):
+                    return
                 self.drop(st, atom)
                 return
             op = a["op"]
@@ -838,17 +933,34 @@ class Analysis:
     # ---- path walk -------------------------------------------------------------------------
     def run(self):
         st = State()
-        for path, op, val in self.assume:
+        def entry_sym(path):
+            if path in st.env:
+                return st.env[path]
             v = Lin.sym(path + "@0")
             st.env[path] = v
             if self.unsigned_path(path) and (path + "@0") not in st.nonneg:
                 st.cons.append(v.scale(-1))
                 st.nonneg.add(path + "@0")
-            c = Lin.const(val)
+            return v
+        for path, op, val in self.assume:
+            v = entry_sym(path)
+            c = Lin.const(val) if isinstance(val, int) else entry_sym(val)
             if op == ">=":
                 st.cons.append(le(c, v))
             elif op == "<=":
                 st.cons.append(le(v, c))
+            elif op == "<":
+                st.cons.append(lt(v, c))
+            elif op == ">":
+                st.cons.append(lt(c, v))
+        for pvar, base in self.ptr_assume.items():
+            off = Lin.sym(pvar + ".off@0")
+            st.cons.append(off.scale(-1))
+            st.nonneg.add(pvar + ".off@0")
+            st.ptr[pvar] = (base, off)
+            cap = self.cap_of(st, base)
+            if cap is not None:
+                st.cons.append(lt(off, cap))     # points at a byte of the buffer
         # candidate invariants first (they need the entry state of each loop: computed lazily)
         self.walk(self.fn.entry, st, None)
         return self.sites
@@ -878,6 +990,10 @@ class Analysis:
             self.do_elem(st, e)
         if b.id == fn.exit.id:
             self.npaths += 1
+            for text, mk in self.exit_obligations:
+                goals = mk(self, st)
+                for g in goals or []:
+                    self.oblige_fact(st, self.exit_node(), "exit", g, text)
             return
         live = [(i, s) for i, s in enumerate(b.succs) if s is not None]
         for i, s in live:
@@ -919,6 +1035,20 @@ class Analysis:
             if stop_head is not None and s.id not in self.loops[stop_head]:
                 continue      # the inductive check follows only paths that stay inside the loop
             self.walk(s, q, stop_head, collect)
+
+    def exit_node(self):
+        return self.fn.body
+
+    def cur(self, st, path):
+        """current value of a scalar path (entry symbol if untouched)"""
+        if path in st.env:
+            return st.env[path]
+        v = Lin.sym(path + "@0")
+        st.env[path] = v
+        if self.unsigned_path(path) and (path + "@0") not in st.nonneg:
+            st.cons.append(v.scale(-1))
+            st.nonneg.add(path + "@0")
+        return v
 
     def havoc_loop(self, st, head):
         mods, pmods, bufw = self.loop_mod[head.id]
